@@ -199,3 +199,22 @@ def _match_known(known: list[dict], f: Finding) -> dict | None:
         if k.get("property") == f.prop and k.get("rule") == f.rule and k.get("function") == f.function and k.get("statement") == f.statement:
             return k
     return None
+
+
+class RuleAlias:
+    """Report another property's rule function under this property's rule id (same constructs, shared machinery)."""
+
+    def __init__(self, run, rule: str) -> None:
+        self._run, self._rule = run, rule
+
+    def finding(self, rule, *a, **k):
+        return self._run.finding(self._rule, *a, **k)
+
+    def ob(self, rule, *a, **k):
+        return self._run.ob(self._rule, *a, **k)
+
+    def floor(self, what, measured, minimum):
+        return self._run.floor(f"{self._rule}: {what}", measured, minimum)
+
+    def __getattr__(self, name):
+        return getattr(self._run, name)
